@@ -23,7 +23,7 @@ PROP = "C14"
 LEVEL = "proof"
 META = {
     "category": "proof",
-    "technique": "Coq refinement proof (resumable executor = sequential run on the top-level fragment, any step count) + extracted-model "
+    "technique": "Coq refinement proof (resumable executor = sequential run on the top-level fragment, any step count) and trace invariant by induction over step grants (statements entered once, in index order, for every body) + extracted-model "
                  "differential run against main with the scheduler trace",
     "text": "Machine-checked theorems about a function-by-function Gallina model of execute_one_step / execute_compound_statement / "
             "execute_if|while|for_statement with statement_positions, YieldException.is_from_loop, current_statement_index, auto_yield and "
